@@ -28,7 +28,7 @@ Print Assumptions C06_valid_value.
 
 (* Reading the output back gives the same value, for every indent: nested
    containers, key order and duplicates, strings (well-formed UTF-8) to the
-   byte, integers up to 2^53 in magnitude.  Float tokens are outside. *)
+   byte, every int64 integer.  Float tokens are outside. *)
 Theorem C06_decode_encode : forall (v : jvalue) (ind : N),
   rt_domain v = true -> parse_json (enc_top ind v) = Ok v.
 Proof. exact decode_encode. Qed.
@@ -43,14 +43,15 @@ Proof. intros s ind. split; [exact (string_exact s ind)|exact (valid_sanitize s)
 Print Assumptions C06_string_exact.
 
 (* Integers: every int64 written in decimal in the YAML node becomes exactly
-   that JSON integer; on the reading side exactness holds up to 2^53. *)
+   that JSON integer, and reads back exactly (since the repair of the JSON
+   reader: integer literals that fit int64 no longer go through float64). *)
 Theorem C06_int_exact : forall (ff : str -> res str) (z : Z) (ind : N),
   (- Z.of_N two63 <= z < Z.of_N two63)%Z ->
   to_json ff (NScalar t_int (dec_Z z)) = Ok (JInt z)
   /\ enc_top ind (JInt z) = (dec_Z z ++ [10])%list
-  /\ ((Z.abs z <= two53)%Z -> parse_json (enc_top ind (JInt z)) = Ok (JInt z)).
+  /\ parse_json (enc_top ind (JInt z)) = Ok (JInt z).
 Proof.
-  intros ff z ind Hz. split; [exact (int_exact_yaml ff z Hz)|]. split; [reflexivity|exact (int_exact_json z ind)].
+  intros ff z ind Hz. split; [exact (int_exact_yaml ff z Hz)|]. split; [reflexivity|exact (int_exact_json z ind Hz)].
 Qed.
 Print Assumptions C06_int_exact.
 
@@ -69,19 +70,12 @@ Theorem C06_nonfinite_errors : forall (ff : str -> res str) (t : str),
 Proof. exact nonfinite_errors. Qed.
 Print Assumptions C06_nonfinite_errors.
 
-(* Finding: integers above 2^53 are not exact through the JSON reader
-   (setScalarFromJson goes through float64): 9007199254740993 reads as ...992. *)
-Theorem C06_bigint_via_float_refuted : exists z : Z,
-  (- Z.of_N two63 <= z < Z.of_N two63)%Z /\
-  parse_json (enc_top 0 (JInt z)) = Ok (JInt (z - 1)).
-Proof. exists 9007199254740993%Z. split; [vm_compute; split; [discriminate|reflexivity]|vm_compute; reflexivity]. Qed.
-Print Assumptions C06_bigint_via_float_refuted.
-
-(* Finding: the largest int64 comes back as a float token, not as itself. *)
-Theorem C06_maxint64_via_float_refuted :
-  parse_json (enc_top 0 (JInt 9223372036854775807)) = Ok (JFloat (dec_Z 9223372036854775807)).
+(* Finding (still open): an integer literal beyond int64 in JSON input is
+   read through float64 and comes back as a float token, not as itself. *)
+Theorem C06_json_int_beyond_int64_refuted :
+  parse_json (str_of_string "9223372036854775808") = Ok (JFloat (str_of_string "9223372036854775808")).
 Proof. vm_compute. reflexivity. Qed.
-Print Assumptions C06_maxint64_via_float_refuted.
+Print Assumptions C06_json_int_beyond_int64_refuted.
 
 (* With unwrapping on a top-level scalar is printed raw: the output need not
    be JSON at all, and when it is, it can be a different value. *)
